@@ -15,7 +15,7 @@ VARIABLE c
 StatusClasses == {0, 1, 2, 3, 255, 256, 1024, 1287, 65535}
 States == {"absent", "idle", "processing", "stopped", "other", "intsyntax", "kwsyntax"}
 Vocab == {"B", "H", "N", "U"}                 \* blocking, harmless, 'none', unlisted
-Layouts == {"plain", "op-first", "two-printer-groups", "reasons-in-second", "job-group-decoy"}
+Layouts == {"plain", "op-first", "two-printer-groups", "second-printer-ready", "reasons-in-second", "job-group-decoy"}
 SeqsUpTo(S, n) == UNION {[1..k -> S] : k \in 1..n}
 Reasons == {[form |-> "absent", kws |-> <<>>], [form |-> "name-syntax", kws |-> <<"B">>]}
            \cup {[form |-> "single", kws |-> <<x>>] : x \in Vocab}
@@ -37,12 +37,14 @@ ReasonsV(r) == IF r.form = "single" THEN [k |-> "Keyword", s |-> KwHex(r.kws[1])
 PAttrs(cs) == (IF cs.state = "absent" THEN EmptyMap ELSE (N_pstate :> StateV(cs.state)))
               @@ (IF cs.reasons.form = "absent" THEN EmptyMap ELSE (N_reasons :> ReasonsV(cs.reasons)))
 Decoy == (N_pstate :> [k |-> "Enum", i |-> 5]) @@ (N_reasons :> [k |-> "Keyword", s |-> KwHex("B")])
+ReadyDecoy == (N_pstate :> [k |-> "Enum", i |-> 3]) @@ (N_reasons :> [k |-> "Keyword", s |-> KwNone])
 Resp(cs) ==
   LET pa == PAttrs(cs) IN
   [code |-> cs.status,
    groups |-> CASE cs.layout = "plain" -> <<[tag |-> 4, attrs |-> pa]>>
                 [] cs.layout = "op-first" -> <<[tag |-> 1, attrs |-> EmptyMap], [tag |-> 4, attrs |-> pa]>>
                 [] cs.layout = "two-printer-groups" -> <<[tag |-> 1, attrs |-> EmptyMap], [tag |-> 4, attrs |-> pa], [tag |-> 4, attrs |-> Decoy]>>
+                [] cs.layout = "second-printer-ready" -> <<[tag |-> 4, attrs |-> pa], [tag |-> 4, attrs |-> ReadyDecoy], [tag |-> 4, attrs |-> ReadyDecoy]>>
                 [] cs.layout = "reasons-in-second" -> <<[tag |-> 4, attrs |-> pa], [tag |-> 2, attrs |-> Decoy]>>
                 [] cs.layout = "job-group-decoy" -> <<[tag |-> 2, attrs |-> Decoy], [tag |-> 4, attrs |-> pa]>>]
 LibSuccess(code) == code \in {0, 1, 2}        \* what the pinned library classifies as success
